@@ -97,7 +97,7 @@ fn run_deep_chain(case: u64, rng: &mut Rng, ev: &mut Ev, depth: usize) {
     ev.evaluations += 1;
     let desc = json!({"deep_chain": {"depth": depth, "contradiction_at_row": contradiction_at, "thread_stack_bytes": 2 << 20}});
     let (poly, ftl, ffl) = (p.to_poly(), ft.to_lib(), ff.to_lib());
-    crate::util::wal(&format!("case={} deep chain of depth {} on a 2 MiB stack", case, depth));
+    crate::util::wal(&format!("IN-SMALL-STACK-THREAD case={} deep chain of depth {} (from_poly, infeasible_elimination, apply_func, reduce, compose) on a 2 MiB stack", case, depth));
     let handle = std::thread::Builder::new().stack_size(2 << 20).spawn(move || -> Result<(usize, usize, Option<Vec<f64>>, Option<Vec<f64>>), String> {
         let r = std::panic::catch_unwind(std::panic::AssertUnwindSafe(|| {
             let mut t = AffTree::<2>::from_poly(poly, ftl, Some(&ffl)).map_err(|e| format!("from_poly: {}", e))?;
@@ -123,7 +123,11 @@ fn run_deep_chain(case: u64, rng: &mut Rng, ev: &mut Ev, depth: usize) {
         }
     });
     let res = match handle {
-        Ok(h) => h.join().unwrap_or_else(|_| Err("thread died".into())),
+        Ok(h) => {
+            let r = h.join().unwrap_or_else(|_| Err("thread died".into()));
+            crate::util::wal(&format!("case={} small-stack thread finished", case));
+            r
+        }
         Err(_) => {
             ev.skip("could not spawn the small-stack thread");
             return;
@@ -150,7 +154,7 @@ pub fn run_case(ctx: &Ctx, case: u64, ev: &mut Ev) {
     }
     if case % 1500 == 7 {
         let mut rng = Rng::derive(ctx.seed, "C04-deep", case);
-        let depth = if ctx.tier == crate::Tier::Thorough { 30_000 + rng.below(50_000) } else { 10_000 + rng.below(15_000) };
+        let depth = if ctx.tier == crate::Tier::Thorough { 150_000 + rng.below(150_000) } else { 60_000 + rng.below(40_000) };
         run_deep_chain(case, &mut rng, ev, depth);
         return;
     }
